@@ -623,12 +623,16 @@ namespace ValueFlow
                                 result.floatValue = static_cast<double>(val);
                             } else {
                                 // unsigned arithmetic is performed modulo 2^N
-                                if (!result.isImpossible() && !parent->isComparisonOp() && astIsUnsigned(parent) &&
-                                    !parent->valueType()->pointer) {
-                                    result.wideintvalue = val;
-                                    val = truncateIntValue(val,
-                                                           parent->valueType()->getSizeOf(settings, ValueType::Accuracy::ExactOrZero, ValueType::SizeOf::Pointer),
-                                                           ValueType::Sign::UNSIGNED);
+                                if (!parent->isComparisonOp() && astIsUnsigned(parent) && !parent->valueType()->pointer) {
+                                    const size_t size = parent->valueType()->getSizeOf(settings, ValueType::Accuracy::ExactOrZero, ValueType::SizeOf::Pointer);
+                                    if (!result.isImpossible()) {
+                                        result.wideintvalue = val;
+                                        val = truncateIntValue(val, size, ValueType::Sign::UNSIGNED);
+                                    } else if (result.bound != Value::Bound::Point && size > 0 && size < sizeof(MathLib::bigint) &&
+                                               Token::Match(parent, "+|-|*|<<")) {
+                                        // the result may wrap around: a bound of an operand does not bound it
+                                        continue;
+                                    }
                                 }
                                 result.intvalue = val;
                             }
